@@ -101,7 +101,7 @@ def main():
     if "--seeded" in sys.argv:
         for meta in sorted(glob.glob(os.path.join(HERE, "seeded", "*", "meta.json"))):
             mj = json.load(open(meta))
-            if mj.get("detected_by"):
+            if mj.get("detected_by") and not mj.get("retired"):
                 # run the check that owns the reporting rule (a change seeded for one
                 # property may be reported by a rule of another)
                 cat.append({"id": "seeded/" + os.path.basename(os.path.dirname(meta)), "property": mj["detected_by"].split("/")[0],
